@@ -56,6 +56,8 @@ def main():
         if pid == 'C04':
             text += (' Every state is also reached on live objects of five provenances along its discovery path '
                      '(live paths, DESIGN.md §3.7).')
+        text += (' Every run ends with fixed large probes outside the exhaustive bound (300-token sentences, nodes with 290-1100 '
+                 'children, 600-640 nested levels; DESIGN.md §3.8), enumerated like everything else, no coverage claim.')
         checks.append({
             'property_id': pid,
             'quick_cmd': './check %s --tier quick' % pid,
